@@ -228,6 +228,9 @@ class Interface(ModelElement):
         if pval is None:
             self.unset_property(pname)
             return
+        if pname == 'name':
+            # a new name must be free in the scope the constructors check
+            self._check_name_unique(pval)
         if_sliver = InterfaceSliver()
         if_sliver.set_property(prop_name=pname, prop_val=pval)
         # write into the graph
